@@ -49,7 +49,7 @@ def one(pid, tier, m, run_tests, idx):
                 open(p, "w").write(s.replace(e["old"], e["new"]))
         env = dict(os.environ, PYTHONDONTWRITEBYTECODE="1")
         if run_tests:
-            rc, out = sh([PY, "-m", "pytest", "-q", "-x", "-p", "no:cacheprovider", "--timeout=900"], cwd=scratch, env=env)
+            rc, out = sh([PY, "-m", "pytest", "-q", "-x", "-p", "no:cacheprovider", "--timeout=60"], cwd=scratch, env=env)
             tail = out.strip().splitlines()[-1] if out.strip() else ""
             res["tests_pass"] = rc == 0
             res["tests"] = tail
